@@ -109,5 +109,11 @@ func TestVerifReplay(t *testing.T) {
 		if _, err := f.Write(append(b, '\n')); err != nil {
 			t.Fatal(err)
 		}
+		if r.Outcome == "timeout" {
+			// the case's goroutine is still running (and may be allocating): end the process; the driver
+			// resumes with the next case
+			f.Close()
+			os.Exit(3)
+		}
 	}
 }
